@@ -591,3 +591,63 @@ package litefs
 //@   requires  dbWF(db) && f != nil
 //@   loop 1 invariant walReaderReady(r) && txOffsets != nil && offsets != nil
 //@   nopanic
+
+// ===========================================================================
+// db.go — commit protocols (C02, C03, C05, C07, C09, C13, C15)
+//
+// Protocol automata: ghost variables updated at named calls. `w` records that Writeable() returned
+// true (guard dominance, C07); `stage` records the durable-before-visible order (C05); data-flow
+// assertions at the calls pin the LTX header, the position set and the checksum (C02, C09).
+
+//@ spec func posOf(db *DB) ltx.Pos = as(aload(db.pos), ltx.Pos)
+
+//@ func field.DB.Now
+//@   pure
+
+//@ func (db *DB) Writeable [C07]
+//@   requires db != nil && db.store != nil
+//@   pure
+
+//@ func (db *DB) isJournalHeaderValid [C02]
+//@   requires db != nil && db.os != nil
+//@   pure
+
+// invalidateJournal: in each of the three modes the journal is invalidated through the OS layer, the
+// directory is fsynced, and only then the dirty page set is replaced by an empty one. Nothing else in memory changes.
+//@ func (db *DB) invalidateJournal [C02,C05]
+//@   requires  db != nil && db.os != nil
+//@   modifies  db.dirtyPageSet
+//@   ensures   err == nil ==> db.dirtyPageSet != nil && fresh(db.dirtyPageSet) && (forall p uint32 :: !has(db.dirtyPageSet, p))
+//@   ensures   err != nil ==> db.dirtyPageSet == old(db.dirtyPageSet)
+//@   nopanic
+
+//@ func (db *DB) CommitJournal [C02,C05,C07,C09,C13]
+//@   requires  dbWF(db) && db.dirtyPageSet != nil
+//@   ghost w bool = false
+//@   ghost hdrValid bool = false
+//@   ghost stage int = 0
+//@   ghost post ltx.Checksum = 0
+//@   on call DB.Writeable ; then w = ret0
+//@   on call DB.isJournalHeaderValid assert w && stage == 0 ; then hdrValid = (ret0 && ret1 == nil)
+//@   on call DB.invalidateJournal assert w && ((stage == 0 && (!hdrValid || db.pageSize == 0)) || stage == 9) ; then stage = (stage == 9 && ret0 == nil ? 10 : stage)
+//@   on call OS.Create op "COMMITJOURNAL:LTX" assert w && hdrValid && db.pageSize != 0 && stage == 0 ; then stage = 1
+//@   on call ltx.Encoder.EncodeHeader assert stage == 1 && arg1.MinTXID == old(posOf(db)).TXID + 1 && arg1.MaxTXID == arg1.MinTXID &&
+//@        arg1.PreApplyChecksum == old(posOf(db)).PostApplyChecksum && arg1.PageSize == db.pageSize && arg1.Commit == commit ; then stage = (ret0 == nil ? 2 : stage)
+//@   on call ltx.Encoder.EncodePage assert stage == 2
+//@   on call DB.checksum assert stage == 2 && arg1 == commit ; then stage = 3, post = ret0
+//@   on call ltx.Encoder.SetPostApplyChecksum assert stage == 3 && arg1 == post ; then stage = 4
+//@   on call ltx.Encoder.Close assert stage == 4 ; then stage = (ret0 == nil ? 5 : stage)
+//@   on call os.File.Sync assert (stage == 5 && arg0 == ltxFile) || (stage == 8 && arg0 == dbFile) ; then stage = (ret0 != nil ? stage : (stage == 5 ? 6 : 9))
+//@   on call Client.Commit assert stage == 6
+//@   on call OS.Rename op "COMMITJOURNAL:LTX" assert stage == 6 ; then stage = (ret0 == nil ? 7 : stage)
+//@   on call internal.Sync assert stage == 7 ; then stage = (ret0 == nil ? 8 : stage)
+//@   on call DB.setPos assert stage == 10 && arg1.TXID == old(posOf(db)).TXID + 1 && arg1.PostApplyChecksum == post ; then stage = 11
+//@   on call Store.MarkDirty assert stage == 11 ; then stage = 12
+//@   loop 1 invariant stage == 0 && w && hdrValid && db.pageSize != 0 && dbWF(db)
+//@   loop 2 invariant stage == 2 && w && hdrValid && db.pageSize != 0 && dbWF(db)
+//@   ensures   !w ==> err == ErrReadOnlyReplica && stage == 0
+//@   ensures   err == nil ==> stage == 12 || (stage == 0 && (!hdrValid || db.pageSize == 0))
+
+// the closure of CommitJournal that clears the checksums of truncated pages
+//@ func litefs.DB.CommitJournal$5
+//@   loop 1 invariant dbWF(db) && db.pageSize != 0 && commit <= i
